@@ -55,7 +55,7 @@ def prims():
     import autograd.numpy as anp
     from autograd.extend import defjvp, defvjp, primitive
 
-    state = {"count": 0, "boom_at": None, "bwd_fail": False}
+    state = {"count": 0, "boom_at": None, "bwd_fail": False, "bwd_count": 0, "bwd_at": 1}
 
     @primitive
     def fwd_boom(x):
@@ -74,13 +74,17 @@ def prims():
     def bwd_vjp(ans, x):
         def vjp(g):
             if state["bwd_fail"]:
-                raise Fault("backward fault")
+                state["bwd_count"] += 1
+                if state["bwd_count"] >= state["bwd_at"]:  # the k-th derivative rule applied in this pass raises
+                    raise Fault("backward fault")
             return g
         return vjp
 
     def bwd_jvp(g, ans, x):
         if state["bwd_fail"]:
-            raise Fault("forward-rule fault")
+            state["bwd_count"] += 1
+            if state["bwd_count"] >= state["bwd_at"]:
+                raise Fault("forward-rule fault")
         return g
 
     defvjp(bwd_boom, bwd_vjp)
@@ -198,6 +202,7 @@ def body(max_steps, c):
                 fresh = onp.asarray(autograd.grad(f)(xs))
                 for attempt in range(c.int(1, 2)):
                     state["bwd_fail"] = True
+                    state["bwd_count"], state["bwd_at"] = 0, 1
                     try:
                         vjp(1.0)
                         state["bwd_fail"] = False
@@ -222,6 +227,7 @@ def body(max_steps, c):
             state["count"] = 0
             state["boom_at"] = k if fault == "forward_prim" else None
             state["bwd_fail"] = fault == "backward_rule"
+            state["bwd_count"], state["bwd_at"] = 0, k
             try:
                 with warnings.catch_warnings():
                     if fault == "trace_exit":
@@ -323,7 +329,10 @@ def failing_nested(modes, fault, catch, x0, P):
             z = anp.sin(x)
             raise Fault("plain raise")
         if fault == "backward_rule":
-            return P["bwd_boom"](x) * x
+            y = x
+            for _ in range(3):
+                y = P["bwd_boom"](y) * x + y
+            return y
         return 3.0  # trace_exit: output independent of input -> warning (promoted to an error by the harness)
 
     def level(i, x):
@@ -383,7 +392,7 @@ def _enclosing_numeric(catch, x0):
 from functools import partial  # noqa: E402
 
 PROP = Prop("C19", [
-    Test("histories", partial(body, 12), quick=250, thorough=0, shard_size=16),
+    Test("histories", partial(body, 12), quick=1000, thorough=0, shard_size=64),
     Test("histories_long", partial(body, 30), quick=0, thorough=3000, shard_size=100),
 ], RULE, level="fault_enumeration", assumptions=[
     "the canary table of a fresh subprocess (same tree, PYTHONHASHSEED=0) is the reference for 'as in a fresh interpreter'",
